@@ -9,6 +9,11 @@
   byte addresses `(region, index)` it *wrote*, `w.dirty` the pages `(region, page index)` set in
   the bitmap, `pageOf p a` the page containing address `a` for bitmap page size `p`.
 
+  `Start st` (Fbr.Lemmas.XportStart) = a virtio-fs request before the server touched it: empty
+  access and dirty logs, no fusedev writer, page size > 0, counters that cannot overflow usize;
+  `writable st` = the byte addresses of the writers' buffers; `exec st ops` = the handle table
+  after an arbitrary operation list; `ahead ws` = the addresses still in front of the writers.
+
   All statements are for ANY bitmap page size `p > 0`, ANY descriptor-chain layout (any list of
   `(region, off, len)` buffers, zero-length ones included, any alignment), ANY operation list
   (reads, object reads, file transfers with scripted short counts / errors / EINTR through files
